@@ -209,6 +209,34 @@ theorem addValidator_shape (cfg : Config) (s1 s' : State) (pk wc : Bytes) (amt :
       split <;> omega
     · cases h
 
+/-- what `state.AddValidator` does on any fork, field by field (altair … deneb also append a participation byte to both
+lists and an inactivity score) -/
+theorem addValidator_fields (cfg : Config) (s1 s' : State) (pk wc : Bytes) (amt : Nat)
+    (h : addValidator cfg s1 pk wc amt = .ok s') :
+    ∃ eff, eff ≤ cfg.MAX_EFFECTIVE_BALANCE ∧ s1.validators.length < cfg.VALIDATOR_REGISTRY_LIMIT ∧
+      s'.validators = s1.validators ++ [⟨pk, wc, eff, false, FAR_FUTURE_EPOCH, FAR_FUTURE_EPOCH, FAR_FUTURE_EPOCH, FAR_FUTURE_EPOCH⟩] ∧
+      s'.balances = s1.balances ++ [amt] ∧ s'.slot = s1.slot ∧ s'.randao_mixes = s1.randao_mixes ∧ s'.fork = s1.fork ∧
+      s'.slashings = s1.slashings ∧ s'.eth1_deposit_index = s1.eth1_deposit_index ∧ s'.eth1_data = s1.eth1_data ∧
+      s'.block_roots = s1.block_roots ∧ s'.current_sync_committee = s1.current_sync_committee ∧
+      (s1.fork ≠ .phase0 → s'.current_epoch_participation = s1.current_epoch_participation ++ [0] ∧
+        s'.previous_epoch_participation = s1.previous_epoch_participation ++ [0]) := by
+  unfold addValidator at h
+  simp only [guard_bind] at h
+  split at h
+  · cases h
+  · split at h
+    · rename_i hlim
+      have hcap : (if amt - amt % cfg.EFFECTIVE_BALANCE_INCREMENT > cfg.MAX_EFFECTIVE_BALANCE then cfg.MAX_EFFECTIVE_BALANCE
+          else amt - amt % cfg.EFFECTIVE_BALANCE_INCREMENT) ≤ cfg.MAX_EFFECTIVE_BALANCE := by split <;> omega
+      by_cases hf : s1.fork = .phase0
+      · simp only [show (s1.fork = Fork.phase0) = True from eq_true hf, if_true, Res.pure_eq] at h
+        cases h
+        exact ⟨_, hcap, by simpa using hlim, rfl, rfl, rfl, rfl, rfl, rfl, rfl, rfl, rfl, rfl, fun hne => absurd hf hne⟩
+      · simp only [show (s1.fork = Fork.phase0) = False from eq_false hf, if_false, Res.pure_eq] at h
+        cases h
+        exact ⟨_, hcap, by simpa using hlim, rfl, rfl, rfl, rfl, rfl, rfl, rfl, rfl, rfl, rfl, fun _ => ⟨rfl, rfl⟩⟩
+    · cases h
+
 /-- the three outcomes of an accepted `ProcessDeposit`: top-up, skipped (failing proof of possession), new validator -/
 theorem processDeposit_shape (cfg : Config) (ctx ctx' : Ctx) (st st' : State) (dep : Deposit)
     (h : processDeposit cfg ctx st dep = .ok (ctx', st')) :
@@ -535,16 +563,16 @@ theorem p0d_attesterSlashing (cfg : Config) (S0 : State) (p Bm C : Nat) (K : P0C
     (fun a b i hp => slash_pubkeys cfg a b i p hp) lst st false _ (st', b) hstart hfold
   exact hi.after (h2 st' h).1 hk ((h2 st' h).2 rfl).2
 
-theorem p0d_attestation (cfg : Config) (S0 : State) (p Bm C : Nat) (K : P0Const cfg S0 Bm C) (KA : P0AConst cfg) (l : List Attestation) (ctx : Ctx)
+theorem p0d_attestation (cfg : Config) (S0 : State) (p Bm C : Nat) (K : P0Const cfg S0 Bm C) (KA : P0AConst cfg) (hF : S0.fork = .phase0) (l : List Attestation) (ctx : Ctx)
     (hl : ∀ att ∈ l, att.bits_wellformed = true ∧ att.aggregation_bits.length ≤ cfg.MAX_VALIDATORS_PER_COMMITTEE) :
     Step (fun k => P0DInv cfg S0 p Bm C k ctx) true l (Block.process_attestation cfg)
       (if Fork.phase0 = .phase0 then processAttestationPhase0 cfg ctx else processAttestationAltair cfg ctx) := by
   intro k st att hatt hi
   have K' := K.le (Nat.sub_le C (k + 1))
-  obtain ⟨h1, h2⟩ := p0a_attestation cfg S0 p Bm _ K' KA l ctx hl k st att hatt hi.inv
+  obtain ⟨h1, h2⟩ := p0a_attestation cfg S0 p Bm _ K' KA hF l ctx hl k st att hatt hi.inv
   refine ⟨h1, fun st' h => ⟨?_, (h2 st' h).2⟩⟩
   obtain ⟨hwf, hmaxbits⟩ := hl att hatt
-  have hfork : st.fork = .phase0 := by rw [hi.inv.base.slash.fork]; exact K.fork0
+  have hfork : st.fork = .phase0 := by rw [hi.inv.base.slash.fork]; exact hF
   have hcur : st.slot + 2 * cfg.SLOTS_PER_EPOCH < 2 ^ 64 := by rw [hi.inv.base.slash.slot]; exact hi.inv.hcur
   have h' := h
   simp only [if_true] at h'
@@ -633,26 +661,23 @@ theorem p0d_deposit (cfg : Config) (S0 : State) (p Bm C : Nat) (K : P0Const cfg 
     · exact hi.pk.of_pubkeys (by rw [hst])
     · rw [hst]; simp only []; rw [hw]; exact hdidx
   · -- new validator
-    have hfork : st.fork = .phase0 := by rw [hs.fork]; exact K.fork0
-    obtain ⟨eff, heff, hlim, hst⟩ := addValidator_shape cfg { st with eth1_deposit_index := w64 (st.eth1_deposit_index + 1) } st'
-      d.data.pubkey d.data.withdrawal_credentials d.data.amount hfork hadd
-    simp only [] at hst hlim
+    obtain ⟨eff, heff, hlim, hvals0, hbals, hslot, hmix, hfk, hsls, hdi, he1, _, _, _⟩ := addValidator_fields cfg
+      { st with eth1_deposit_index := w64 (st.eth1_deposit_index + 1) } st' d.data.pubkey d.data.withdrawal_credentials d.data.amount hadd
+    simp only [] at hvals0 hbals hslot hmix hfk hsls hdi he1 hlim
     generalize hvdef : (⟨d.data.pubkey, d.data.withdrawal_credentials, eff, false, FAR_FUTURE_EPOCH, FAR_FUTURE_EPOCH, FAR_FUTURE_EPOCH,
-      FAR_FUTURE_EPOCH⟩ : Validator) = v at hst
+      FAR_FUTURE_EPOCH⟩ : Validator) = v at hvals0
     have hfresh : FreshValidator v := by rw [← hvdef]; exact ⟨rfl, rfl, rfl, rfl, rfl⟩
     have hvpk : v.pubkey = d.data.pubkey := by rw [← hvdef]
     have hveff : v.effective_balance ≤ Bm := by rw [← hvdef]; exact Nat.le_trans heff KD.hmaxeb
     have hcurfar := hs.curfar (K.le (Nat.sub_le C (k + 1))).hC
     have hcur' : S0.slot / cfg.SLOTS_PER_EPOCH < FAR_FUTURE_EPOCH := by
       unfold get_current_epoch compute_epoch_at_slot at hcurfar; rw [hs.slot] at hcurfar; exact hcurfar
-    have hvals : st'.validators = st.validators ++ [v] := by rw [hst]
-    have hslot : st'.slot = st.slot := by rw [hst]
-    have hmix : st'.randao_mixes = st.randao_mixes := by rw [hst]
+    have hvals : st'.validators = st.validators ++ [v] := hvals0
     have hinact := fresh_inactive v hfresh _ hcur'
     obtain ⟨hq, hfc⟩ := budget_append cfg (S0.slot / cfg.SLOTS_PER_EPOCH) st.validators v hfresh
     have hs' : SlashInv cfg S0 p ctx'.activeCount Bm (C - k) (k * cfg.MAX_VALIDATORS_PER_COMMITTEE) st' := by
-      refine ⟨by rw [hslot]; exact hsk.slot, by rw [hst]; exact hsk.fork, ?_, ?_, ?_, ?_, ?_, by rw [hst]; exact hsk.slashings, ?_,
-        by rw [hst]; exact hsk.slen⟩
+      refine ⟨by rw [hslot]; exact hsk.slot, by rw [hfk]; exact hsk.fork, ?_, ?_, ?_, ?_, ?_, by rw [hsls]; exact hsk.slashings, ?_,
+        by rw [hsls]; exact hsk.slen⟩
       · rw [proposer_append cfg st st' v hslot hmix hvals (by unfold get_current_epoch compute_epoch_at_slot; rw [hs.slot]; exact hinact)]
         exact hsk.proposer
       · rw [hvals, active_count_append _ _ _ hinact, c2]; exact hsk.active
@@ -671,9 +696,8 @@ theorem p0d_deposit (cfg : Config) (S0 : State) (p Bm C : Nat) (K : P0Const cfg 
         · exact hsk.eff w h1
         · simp only [List.mem_singleton] at h1
           subst h1; exact hveff
-      · rw [hst]
+      · rw [hbals]
         intro x hx
-        simp only [] at hx
         rcases List.mem_append.mp hx with h1 | h1
         · have := hbud x h1; omega
         · simp only [List.mem_singleton] at h1
@@ -701,7 +725,7 @@ theorem p0d_deposit (cfg : Config) (S0 : State) (p Bm C : Nat) (K : P0Const cfg 
     · rw [hvals, List.length_append, List.length_singleton]
       have := KD.hlimit; omega
     · exact PubkeyOK.append st st' ctx v ctx'.pubkeyIndex hi.pk hvals hnew (fun k' => by rw [c5 k', hvpk])
-    · rw [hst]; simp only []; rw [hw]; exact hdidx
+    · rw [hdi, hw]; exact hdidx
 
 
 /-- a phase0 block container: every operation list inside the type limits of its elements; deposit amounts within one
@@ -718,9 +742,9 @@ structure Phase0Block (cfg : Config) (Bm : Nat) (block : SignedBlock) : Prop whe
 
 /-- `OpSteps` for `P0DInv`: every field discharged for every phase0 block -/
 theorem opSteps_phase0 (cfg : Config) (S0 : State) (p Bm C : Nat) (K : P0Const cfg S0 Bm C) (KA : P0AConst cfg) (KD : P0DConst cfg Bm)
-    (block : SignedBlock) (hb : Phase0Block cfg Bm block) : OpSteps cfg block .phase0 (P0DInv cfg S0 p Bm C) :=
+    (hF : S0.fork = .phase0) (block : SignedBlock) (hb : Phase0Block cfg Bm block) : OpSteps cfg block .phase0 (P0DInv cfg S0 p Bm C) :=
   { mono := fun _ _ _ h => h.mono
-    fork := fun _ _ _ h => by rw [h.inv.base.slash.fork]; exact K.fork0
+    fork := fun _ _ _ h => by rw [h.inv.base.slash.fork]; exact hF
     header := fun k ctx st hi => p0d_header cfg S0 p Bm C block k ctx st hi
     payload := fun ctx payload hpl => by rw [hb.payload] at hpl; cases hpl
     withdrawals := fun ctx payload hpl => by rw [hb.payload] at hpl; cases hpl
@@ -728,7 +752,7 @@ theorem opSteps_phase0 (cfg : Config) (S0 : State) (p Bm C : Nat) (K : P0Const c
     eth1 := fun ctx => p0d_eth1 cfg S0 p Bm C K block ctx
     proposerSlashing := fun ctx => p0d_proposerSlashing cfg S0 p Bm C K _ ctx
     attesterSlashing := fun ctx => p0d_attesterSlashing cfg S0 p Bm C K _ ctx hb.aslen
-    attestation := fun ctx => p0d_attestation cfg S0 p Bm C K KA _ ctx hb.atyped
+    attestation := fun ctx => p0d_attestation cfg S0 p Bm C K KA hF _ ctx hb.atyped
     deposit := fun k ctx st d hd hi => p0d_deposit cfg S0 p Bm C K KD _ hb.dtyped k ctx st d hd hi
     exit := fun ctx => p0d_exit cfg S0 p Bm C K _ ctx
     blsChange := fun ctx k st x hx => by rw [hb.bls] at hx; cases hx
@@ -737,19 +761,19 @@ theorem opSteps_phase0 (cfg : Config) (S0 : State) (p Bm C : Nat) (K : P0Const c
 /-- `processBlock_phase0_eq`: for EVERY phase0 block, `ProcessBlock` simulates `process_block`, and the state after an
 accepted block satisfies the invariant again (with the budget that is left) -/
 theorem processBlock_phase0 (cfg : Config) (S0 : State) (p Bm C k : Nat) (K : P0Const cfg S0 Bm C) (KA : P0AConst cfg) (KD : P0DConst cfg Bm)
-    (ctx : Ctx) (block : SignedBlock) (hb : Phase0Block cfg Bm block)
+    (hF : S0.fork = .phase0) (ctx : Ctx) (block : SignedBlock) (hb : Phase0Block cfg Bm block)
     (hi : P0DInv cfg S0 p Bm C (blockNeed block k) ctx S0) (htyped : Block.check_types cfg block = .ok ()) :
     Sim (Block.process_block cfg S0 block) (processBlock cfg ctx S0 block) ∧
     ∀ st', processBlock cfg ctx S0 block = .ok st' → ∃ ctx', P0DInv cfg S0 p Bm C k ctx' st' :=
-  ⟨processBlock_sim (opSteps_phase0 cfg S0 p Bm C K KA KD block hb) k ctx S0 hi htyped,
-   processBlock_inv (opSteps_phase0 cfg S0 p Bm C K KA KD block hb) k ctx S0 hi⟩
+  ⟨processBlock_sim (opSteps_phase0 cfg S0 p Bm C K KA KD hF block hb) k ctx S0 hi htyped,
+   processBlock_inv (opSteps_phase0 cfg S0 p Bm C K KA KD hF block hb) k ctx S0 hi⟩
 
 /-- the same for `PostSlotTransition` (block signature, `process_block`, state root) -/
 theorem postSlot_phase0 (cfg : Config) (S0 : State) (p Bm C k : Nat) (K : P0Const cfg S0 Bm C) (KA : P0AConst cfg) (KD : P0DConst cfg Bm)
-    (ctx : Ctx) (block : SignedBlock) (hb : Phase0Block cfg Bm block)
+    (hF : S0.fork = .phase0) (ctx : Ctx) (block : SignedBlock) (hb : Phase0Block cfg Bm block)
     (hi : P0DInv cfg S0 p Bm C (blockNeed block k) ctx S0) (htyped : Block.check_types cfg block = .ok ())
     (r : Bytes) (hroot : block.o_post_root = some r) :
     Sim (Block.state_transition_post_slots cfg S0 block) (postSlotTransition cfg ctx S0 block) :=
-  postSlot_sim (opSteps_phase0 cfg S0 p Bm C K KA KD block hb) k ctx S0 hi htyped r hroot
+  postSlot_sim (opSteps_phase0 cfg S0 p Bm C K KA KD hF block hb) k ctx S0 hi htyped r hroot
 
 end Zrnt.Proofs.BlockM
